@@ -99,8 +99,8 @@ Definition logical_ok (s : selem) : Prop :=
 
 Lemma conf_selem s : logical_ok s -> conf (FStruct "SchemaElement") (selem_to_tv s) = true.
 Proof.
-  destruct s as [ty tl rp nm nc cv lg]. unfold logical_ok, selem_to_tv.
-  cbn [se_type se_tlen se_rep se_name se_nchildren se_conv se_logical]. intros L.
+  destruct s as [ty tl rp nm nc cv lg sc pr]. unfold logical_ok, selem_to_tv.
+  cbn [se_type se_tlen se_rep se_name se_nchildren se_conv se_logical se_scale se_prec]. intros L.
   struct_step "SchemaElement"%string.
   destruct lg as [v|]; destr_opts; cbn [optf app forallb fst snd find_field s_fields f_id f_ty N.eqb Pos.eqb];
     rewrite ?L; reflexivity.
